@@ -88,15 +88,28 @@ def check(F, prem):
     if t == "only_callers":
         fn = prem["fn"]
         allowed = set(prem["callers"])
-        found = set()
-        for p, f in list(F.fns.items()):
-            for bi, tm in mir.calls(f):
-                refs = [tm.get("resolved"), tm.get("callee")] + list(tm.get("fnrefs") or [])
-                if fn in refs:
-                    found.add(_owner(F, p))
-            for _bi, c in mir.fn_consts(f):
-                if c.get("fn_resolved") == fn or c.get("fn") == fn:
-                    found.add(_owner(F, p))
+
+        def callers_of(target):
+            out = set()
+            for p, f in list(F.fns.items()):
+                for bi, tm in mir.calls(f):
+                    refs = [tm.get("resolved"), tm.get("callee")] + list(tm.get("fnrefs") or [])
+                    if target in refs:
+                        out.add(_owner(F, p))
+                for _bi, c in mir.fn_consts(f):
+                    if c.get("fn_resolved") == target or c.get("fn") == target:
+                        out.add(_owner(F, p))
+            return out
+        found = callers_of(fn)
+        # an intermediate helper of the same crate that is itself only called from the allowed callers is transparent
+        for _ in range(3):
+            for x in sorted(found - allowed):
+                g = F.fns.get(x)
+                if g is None or g.get("impl_trait") or g["crate"] != (F.fns.get(fn) or {}).get("crate"):
+                    continue
+                up = callers_of(x)
+                if up and x not in up:
+                    found = (found - {x}) | up
         extra = found - allowed
         if extra:
             return False, "%s is now also called from %s" % (fn.split("::")[-1], sorted(x.split("::")[-1] for x in extra))
